@@ -346,6 +346,7 @@ func (w *c4worker) sessionCase(s c4session) {
 				detail(map[string]any{"family": fam, "go": c4short(goAns), "model": c4short(ans)}))
 		}
 	})
+	w.tableSessionCase(s, goAns, detail) // round 6: the same session on the dictionary-over-table mirror (c04_dicttable.go)
 }
 
 // ------------------------------------------------------------------ (b) writer sessions
